@@ -56,9 +56,9 @@ func newView() *view {
 
 func conflicts(set map[held]bool, mt int64, v int) bool {
 	for h := range set {
-		// a file whose CURRENT mtime is zero ("unknown") cannot be validated at all: any other
-		// content the engine may hold is indistinguishable
-		if (mt == 0 || h.mt == mt) && h.v != v {
+		// (a zero mtime is a value like any other since /repo 92b9b9b: an entry is served only
+		// when its time equals the file's current time)
+		if h.mt == mt && h.v != v {
 			return true
 		}
 	}
@@ -71,6 +71,7 @@ type model struct {
 
 	store string               // "" or storeOverlayMixed
 	proc  string               // the engine option (procLess makes vars.less a dependency)
+	comps bool                 // component shorthands registered (<badge> = include of components/Badge.vuego)
 	armed map[string]armedEdit // file -> edit that fires while (or right after) the next render depending on the file runs
 
 	step      int              // index of the op being applied (set by the caller)
@@ -94,6 +95,23 @@ type armedEdit struct {
 
 const storeOverlayMixed = "overlay-mixed"
 
+// storeOverlayZeroLower: vuego.NewOverlayFS(upper, lower) where upper is the edited filesystem
+// (full capability, real mtimes) and lower is a fallback layer whose files report NO mtime (like
+// embed.FS or fstest.MapFS): removing the upper file falls back to the lower version.
+const storeOverlayZeroLower = "overlay-zero-lower"
+
+func validStore(s string) bool {
+	return s == "" || s == storeOverlayMixed || s == storeOverlayZeroLower
+}
+
+// lowerMtOf is the mtime the lower layer's files report.
+func lowerMtOf(store string) int64 {
+	if store == storeOverlayZeroLower {
+		return 0
+	}
+	return lowerMt
+}
+
 // lowerLayer: with storeOverlayMixed the engines see vuego.NewOverlayFS(upper, lower) where
 // upper is the edited filesystem exposed through Open ONLY and lower is a plain filesystem
 // (with Stat) holding these older versions of the same files, all with mtime lowerMt. A file
@@ -111,9 +129,9 @@ func (m *model) eff(f string) (exists bool, v int, mt int64) {
 	if s.exists && !s.blocked {
 		return true, s.v, s.mt
 	}
-	if m.store == storeOverlayMixed {
+	if m.store != "" {
 		if lv, ok := lowerLayer[f]; ok {
-			return true, lv, lowerMt
+			return true, lv, lowerMtOf(m.store)
 		}
 	}
 	return false, 0, 0
@@ -121,11 +139,11 @@ func (m *model) eff(f string) (exists bool, v int, mt int64) {
 
 func newModel(c Case) (*model, error) {
 	init := c.Init
-	if c.Store != "" && c.Store != storeOverlayMixed {
+	if !validStore(c.Store) {
 		return nil, fmt.Errorf("harness: unknown store %q", c.Store)
 	}
 	m := &model{st: map[string]*fstate{}, views: [2]*view{newView(), newView()}, lastWrite: map[string]int{}, freshDt: map[string]int64{},
-		store: c.Store, proc: c.Proc, armed: map[string]armedEdit{}}
+		store: c.Store, proc: c.Proc, comps: c.Comps, armed: map[string]armedEdit{}}
 	for _, f := range allFiles {
 		m.st[f] = &fstate{mt: t0, realMt: t0, maxMt: t0}
 		if c.ZeroInit {
@@ -245,6 +263,7 @@ func (m *model) apply(i int, op Op) ([]string, error) {
 		kind, mtClass := m.write(op.File, op.V, op.Dt, op.Ns, op.Z)
 		return []string{"op:" + kind + ":" + op.File, mtClass}, nil
 	case op.Op == "delete":
+		m.noteChange(op.File)
 		m.remove(op.File)
 		return []string{"op:delete:" + op.File}, nil
 	case op.Op == "arm":
@@ -259,6 +278,7 @@ func (m *model) apply(i int, op Op) ([]string, error) {
 			f.touched = true
 		}
 		f.blocked = true
+		m.noteChange(op.File)
 		return []string{"op:make-unreadable:" + op.File}, nil
 	case op.Op == "unblock":
 		f := m.st[op.File]
@@ -266,9 +286,19 @@ func (m *model) apply(i int, op Op) ([]string, error) {
 			f.touched = true
 		}
 		f.blocked = false
+		m.noteChange(op.File)
 		return []string{"op:make-readable-again:" + op.File}, nil
 	}
 	return nil, fmt.Errorf("harness: unknown op %q", op.Op)
+}
+
+// noteChange records a non-write op that changes what the engines see of a file (delete,
+// unreadable, readable again: on an overlay that can reveal another version): for the
+// known-finding bookkeeping it is the op that brought the file into its present state.
+func (m *model) noteChange(file string) {
+	f := m.st[file]
+	m.lastWrite[file] = m.step
+	m.freshDt[file] = (f.maxMt/sec+1)*sec - f.realMt
 }
 
 // armedDeps lists the dependencies of a render that have an armed edit.
@@ -315,13 +345,22 @@ func (m *model) closure(entry, target string) []string {
 			out = append(out, f)
 		}
 	}
+	// a file that uses the <badge> shorthand includes components/Badge.vuego when the engine has
+	// the shorthand registered (otherwise the tag stays as it is)
+	badge := func(f string) {
+		if v, ok := m.cur(f); ok && v.LoadOK && v.Badge && m.comps {
+			add(fBadge)
+		}
+	}
 	add(target)
 	tv, ok := m.cur(target)
 	if !ok || !tv.LoadOK {
 		return out
 	}
+	badge(target)
 	if tv.Include {
 		add(fComp)
+		badge(fComp)
 	}
 	if tv.Less && m.proc == procLess {
 		add(fLess) // @import-ed by the style block the LESS processor compiles on every render
@@ -338,9 +377,11 @@ func (m *model) closure(entry, target string) []string {
 			break
 		}
 		add(fMain)
+		badge(fMain)
 		if mv, ok := m.cur(fMain); ok && mv.LoadOK {
 			if mv.Include {
 				add(fComp)
+				badge(fComp)
 			}
 			if mv.Layout == "base" {
 				add(fBase)
@@ -359,6 +400,21 @@ func (m *model) closure(entry, target string) []string {
 
 // expectOK predicts whether render(entry,target) succeeds on the current files.
 func (m *model) expectOK(entry, target string) bool {
+	if !m.expectOKBase(entry, target) {
+		return false
+	}
+	// everything else is fine, so the closure is exact: a used shorthand needs its component
+	for _, f := range m.closure(entry, target) {
+		if f == fBadge {
+			if v, k := m.cur(fBadge); !k || !v.LoadOK || !v.RenderOK {
+				return false
+			}
+		}
+	}
+	return true
+}
+
+func (m *model) expectOKBase(entry, target string) bool {
 	ok := func(f string) (variant, bool) {
 		v, k := m.cur(f)
 		return v, k && v.LoadOK && v.RenderOK
@@ -466,7 +522,7 @@ func (m *model) postRender(entry, target string, ri renderInfo, ok bool) {
 		ex, ev, emt := m.eff(target)
 		hit := false
 		for h := range w.cache[target] {
-			if ex && (emt == 0 || h.mt == emt) {
+			if ex && h.mt == emt {
 				hit = true
 			}
 		}
@@ -507,11 +563,7 @@ func (m *model) postRender(entry, target string, ri renderInfo, ok bool) {
 		must[broken[0]] = true
 	}
 	for _, f := range ri.deps {
-		// a file that currently reports no mtime teaches the engine nothing: it cannot tell
-		// whether what it holds is still good, so it may keep holding it
-		_, _, emt := m.eff(f)
-		ex, _, _ := m.eff(f)
-		note(f, must[f] && !(ex && emt == 0))
+		note(f, must[f])
 	}
 }
 
@@ -617,8 +669,16 @@ func sanitize(c Case, avoid map[string]bool) (Case, []string) {
 			break
 		}
 		ops := append([]Op(nil), c.Ops...)
-		ops[idx].Dt, ops[idx].Ns, ops[idx].Z = 0, dt, false
-		c = Case{Init: c.Init, Ops: ops, Proc: c.Proc, Store: c.Store, ZeroInit: c.ZeroInit}
+		if o := ops[idx]; o.isWrite() || o.Op == "arm" {
+			ops[idx].Dt, ops[idx].Ns, ops[idx].Z = 0, dt, false
+		} else {
+			// a delete / block / unblock led there (e.g. by revealing the overlay's other
+			// version): an edit with a brand-new mtime takes its place
+			ops[idx] = Op{Op: "edit", File: o.File, V: variantsWhere(o.File, true)[0], Ns: dt}
+		}
+		c2 := c
+		c2.Ops = ops
+		c = c2
 		n = append(n, id)
 	}
 	return c, n
